@@ -39,6 +39,15 @@ def mst_positions(facts):
                             "Element::Edge.%s does not come from a node_map lookup: on a graph whose node indices are not the iteration "
                             "positions (StableGraph with a vacancy, NodeFiltered) the edge refers to the wrong or a non-existent element" % fname)
             o.check(b, "edges", b.line, n >= 1, "%d edge emission(s)" % n, "no Element::Edge emission found")
+            # Prim: everything entered into / tested against nodes_taken is a to_index value
+            m = 0
+            for i, t in b.calls():
+                if last_seg(t["f"]["path"]) in ("insert", "contains") and t["args"] and ("field", "nodes_taken") in leaves(b.expr(t["args"][0], 8)) and len(t["args"]) > 1:
+                    m += 1
+                    e = b.expr(t["args"][1], 10)
+                    o.check(b, "nodes_taken.%s#%d" % (last_seg(t["f"]["path"]), m), t["line"], has_call(e, ("to_index",)),
+                            "keyed by to_index(node)", "nodes_taken is keyed by a value that is not to_index(node): on a graph whose first node's index "
+                                                       "is not that value (vacant slot 0, NodeFiltered) the start node is never marked taken")
     o.r.floor = 8
     return o.r
 
@@ -269,4 +278,121 @@ def residual_bfs(facts):
                     "the same vertex, backward residual edges are never used and the returned flow can be below the maximum")
         o.check(b, "enqueues", b.line, n >= 1, "%d enqueue site(s)" % n, "BFS enqueue not found")
     o.r.floor = 3
+    return o.r
+
+
+# ------------------------------------------------------------------------------------------------ reset / clear completeness
+RESET_FUNCS = {
+    # npath: (adt, fields that need not be touched, reason)
+    "visit::traversal::Dfs::reset": ("visit::traversal::Dfs", ()),
+    "visit::traversal::DfsPostOrder::reset": ("visit::traversal::DfsPostOrder", ()),
+    "visit::traversal::Topo::reset": ("visit::traversal::Topo", ()),
+    "graph_impl::Graph::clear": ("graph_impl::Graph", ("ty",)),
+    "graph_impl::stable_graph::StableGraph::clear": ("graph_impl::stable_graph::StableGraph", ()),
+    "matrix_graph::MatrixGraph::clear": ("matrix_graph::MatrixGraph", ("node_capacity", "ty", "ix")),
+    "graphmap::GraphMap::clear": ("graphmap::GraphMap", ("ty",)),
+}
+
+
+def reset_complete(facts):
+    r = RuleResult("RESET-ALL", "a reset()/clear() method re-initialises every state field of its struct (each field is stored to, or passed by &mut to a "
+                                "clearing call): state left behind from the previous use changes the next answer (e.g. a DfsSpace reused after an "
+                                "early-exit traversal)")
+    for fn, (adt, skip) in RESET_FUNCS.items():
+        bs = [b for b in facts.bodies if b.npath == fn]
+        a = facts.adts.get(adt)
+        if not bs or not a:
+            r.bad(Violation("RESET-ALL", fn, "anchor-missing", "-", 0, "%s or its struct %s not found - fail closed" % (fn, adt)))
+            continue
+        b = bs[0]
+        fields = [f["name"] for f in a["variants"][0]["fields"] if not f["ty"].startswith("core::marker::PhantomData")]
+        touched = set()
+        for i, j, st in b.stmts():
+            for x in st["lhs"]["p"]:
+                if isinstance(x, dict) and x.get("a") == adt:
+                    touched.add(x.get("n"))
+            rv = st["rv"]
+            if rv["k"] in ("ref", "rawptr") and rv.get("mut"):
+                for x in rv["pl"]["p"]:
+                    if isinstance(x, dict) and x.get("a") == adt:
+                        touched.add(x.get("n"))
+        missing = [f for f in fields if f not in touched and f not in skip]
+        if missing:
+            r.bad(Violation("RESET-ALL", b.npath, "fields", b.file, b.line,
+                            "%s does not re-initialise the field(s) %s of %s (touched: %s)" % (last_seg(fn), missing, adt.split("::")[-1], sorted(touched))))
+        else:
+            r.ok(b.npath, "fields", "touches %s%s" % (sorted(touched), (" (not required: %s)" % list(skip)) if skip else ""))
+    r.floor = 6
+    return r
+
+
+# ------------------------------------------------------------------------------------------------ C17: untrusted allocation size
+class HintTaint(Taint):
+    def source_call(self, b, blk, t):
+        np_ = norm_path(t["f"]["path"])
+        if last_seg(np_) == "size_hint" and ("SeqAccess" in np_ or "MapAccess" in np_ or "serde" in np_):
+            return {("UNTRUSTED_LEN", "")}
+        return set()
+
+    def passthrough(self, b, t):
+        nm = last_seg(t["f"]["path"])
+        if nm in ("min", "cautious", "clamp"):
+            return False      # capped
+        return super().passthrough(b, t)
+
+
+def untrusted_alloc(facts):
+    r = RuleResult("WIRE-ALLOC", "no allocation in the deserialisation code is sized by a length that comes from the input stream (SeqAccess::size_hint) "
+                                 "without a cap: a corrupted bincode length prefix would abort or panic instead of giving an error")
+    n = 0
+    for root in facts.bodies:
+        if root.kind not in ("Fn", "AssocFn") or not (root.file.endswith("serde_utils.rs") or root.file.endswith("serialization.rs")):
+            continue
+        tt = HintTaint(facts)
+        for b in tt.run_group(root):
+            st = tt.state[b.path]
+            for i, t in b.calls():
+                nm = last_seg(t["f"]["path"])
+                if nm in ("with_capacity", "reserve", "reserve_exact", "from_elem", "resize", "with_capacity_and_hasher"):
+                    n += 1
+                    bad = [a for a in t["args"] if any(x[0] == "UNTRUSTED_LEN" for x in tt.tags_of_op(b, st, a))]
+                    if bad:
+                        r.bad(Violation("WIRE-ALLOC", b.npath, "%s<-size_hint" % nm, b.file, t["line"],
+                                        "%s is sized by SeqAccess::size_hint(), i.e. by a length prefix read from the (possibly corrupted) input" % nm))
+                    else:
+                        r.ok(b.npath, "%s#%d" % (nm, n), "allocation size does not derive from an input-provided length")
+            for i, t in b.calls():
+                if last_seg(t["f"]["path"]) == "size_hint" and "serde" in norm_path(t["f"]["path"]):
+                    r.ok(b.npath, "size_hint-use", "size_hint consulted (no unbounded allocation from it)")
+    if not r.instances:
+        r.ok("serde_utils", "no-alloc", "the deserialisation code performs no pre-sized allocation at all")
+    r.floor = 1
+    return r
+
+
+# ------------------------------------------------------------------------------------------------ C11: negative cycle reconstruction
+def negative_cycle_suffix(facts):
+    o = Obl("GUARD-NEGCYCLE", "find_negative_cycle keeps the part of the predecessor walk from the first repeated node onwards: the position of that node "
+                              "is used as the START of the kept range (path[pos..]) or the end of a drained prefix, never as a number of elements to cut "
+                              "off the end")
+    for b in o.need_fn(facts, "algo::bellman_ford::find_negative_cycle"):
+        pos_calls = [(i, t) for i, t in b.calls() if last_seg(t["f"]["path"]) == "position"]
+        o.check(b, "position", b.line, bool(pos_calls), "position of the repeated node is computed", "no Iterator::position call found")
+        ok = False
+        bad = None
+        for i, j, st in b.stmts():
+            rv = st["rv"]
+            if rv["k"] == "agg" and rv["ak"] == "adt" and rv["name"].startswith("core::ops::Range") and rv["o"]:
+                e0 = b.expr(rv["o"][0], 8)
+                if has_call(e0, ("position",)) and rv["name"] in ("core::ops::Range", "core::ops::RangeFrom"):
+                    ok = True
+                if rv["name"] == "core::ops::RangeTo" and has_call(e0, ("position",)):
+                    ok = True
+        for i, t in b.calls():
+            if last_seg(t["f"]["path"]) in ("truncate", "split_off", "resize") and len(t["args"]) >= 2 and has_call(b.expr(t["args"][1], 8), ("position",)):
+                bad = t["line"]
+        o.check(b, "suffix-kept", bad or b.line, ok and bad is None, "the walk is cut with path[pos..] (prefix before the repeated node dropped)",
+                "the position of the first repeated node is not used as the start of the kept range%s: with a lead-in of >= 2 off-cycle nodes the "
+                "returned sequence keeps the lead-in and loses part of the cycle" % (" (it sizes a truncate at line %d)" % bad if bad else ""))
+    o.r.floor = 2
     return o.r
